@@ -6,12 +6,15 @@ trajectories of plan_patterns (`inner_product`, `inner_list_product`, `outer_pro
 `outer_list_product` -- the latter two through the C26 model of `snake_cyclers`).
 
 Motors and detectors are identified by their position in the argument list.  Positions are exact
-rationals.  Not modelled: custom `per_step` hooks, pseudo-positioners (`merge_cycler` is the identity
+rationals.  The initial value of `pos_cache` and the `num_points` / `num_intervals` expressions of `scan_nd` are
+read from the current source (harness/props/C25.py -> StepScanGenerated.lean).
+Not modelled: custom `per_step` hooks, pseudo-positioners (`merge_cycler` is the identity
 on plain motors), `BLUESKY_PREDECLARE`, hints, the textual `plan_args` metadata.  No Mathlib.
 -/
 import BlueskyVerif.Pure.Snake
 import BlueskyVerif.Pure.Patterns
 import BlueskyVerif.Pure.Linspace
+import BlueskyVerif.Pure.StepScanGenerated
 
 namespace BlueskyVerif.Pure.StepScan
 open BlueskyVerif.Pure BlueskyVerif.Pure.Snake BlueskyVerif.Pure.Patterns
@@ -48,7 +51,8 @@ abbrev Step := List (Nat × Rat)
 /-- `pos_cache = defaultdict(lambda: None)` -/
 abbrev Cache := Nat → Option Rat
 
-def Cache.empty : Cache := fun _ => none
+/-- the fresh `pos_cache` of `scan_nd` (default value read from the source) -/
+def Cache.empty : Cache := fun _ => Gen.cacheInit
 def Cache.put (c : Cache) (m : Nat) (pos : Rat) : Cache := fun k => if k = m then some pos else c k
 
 /-- the loop of `move_per_step`:
@@ -150,8 +154,11 @@ structure Plan where
   md : Meta
 deriving Repr
 
-/-- scan_nd's own entries: `num_points = len(cycler)`, `num_intervals = len(cycler) - 1` -/
-def ndMeta (traj : List Step) : Meta := { numPoints := traj.length, numIntervals := (traj.length : Int) - 1 }
+/-- scan_nd's own entries: `num_points = len(cycler)`, `num_intervals = len(cycler) - 1` (the two
+    offsets are read from the source) -/
+def ndMeta (traj : List Step) : Meta :=
+  { numPoints := traj.length - Gen.numPointsMinus,
+    numIntervals := (traj.length : Int) - (Gen.numIntervalsMinus : Nat) }
 
 /-- `scan(detectors, motor_0, start_0, stop_0, ..., num=num)` (= `inner_product_scan`):
     `num` must be a positive whole number, then `scan_nd` over `inner_product`. -/
